@@ -152,6 +152,47 @@ pub proof fn lemma_push_keeps_earlier(s: Stk, x: int, k: int)
 // (C08: the CALL / RET nesting lemma lives in unit `transfer`, next to the real `call` / `ret` productions, where bridge functions tie
 //  its step function to their contracts)
 
+
+// ---- bridges (C05): `push` / `pop` above are no restatement by hand for these productions -- each bridge is the REAL production
+// (interpreter.rs, verbatim) with the lemma's step function as its postcondition.  The register forms go through
+// get/set_word_reg_val (Kani units h_push_* / h_pop_*); the forms below move the word between the stack and CS / memory.
+pub open spec fn stk_view(vm: &VM) -> Stk {
+    Stk { ss: vm.arch.ss as int, sp: vm.arch.sp as int, mem: Map::new(vstd::set_lib::set_int_range(0, 0x100000), |a: int| vm.mem[a] as int) }
+}
+pub proof fn lemma_sp_casts(s: u16, c: u16)
+    ensures
+        ((s as u32 as i32 - 2) as u32 as u16) == (if s >= 2 { (s - 2) as u16 } else { (s + 65534) as u16 }),
+        ((s as u32 + 2) as u16) == (if s <= 65533 { (s + 2) as u16 } else { (s - 65534) as u16 }),
+        ((c as i16) as u16) == c,
+{
+    assert(((s as u32 as i32 - 2) as u32 as u16) == (if s >= 2 { (s - 2) as u16 } else { (s + 65534) as u16 })) by (bit_vector);
+    assert(((s as u32 + 2) as u16) == (if s <= 65533 { (s + 2) as u16 } else { (s - 65534) as u16 })) by (bit_vector);
+    assert(((c as i16) as u16) == c) by (bit_vector);
+}
+//@action src/lib/interpreter/interpreter.rs push = "push", "cs" as bridge_push_cs
+//@contract
+//@dropunused
+    requires <usize as IntoSpec<usize>>::obeys_into_spec(),
+    ensures
+        stk_view(final(vm)).sp == push(stk_view(old(vm)), old(vm).arch.cs as int).sp, //# C05 bridge.push_moves_sp_like_the_lemmas_push_step
+        stk_view(final(vm)).ss == push(stk_view(old(vm)), old(vm).arch.cs as int).ss,
+        stk_view(final(vm)).mem =~= push(stk_view(old(vm)), old(vm).arch.cs as int).mem, //# C05 bridge.push_writes_memory_like_the_lemmas_push_step
+        final(vm).arch == (i8086 { sp: final(vm).arch.sp, ..old(vm).arch }),
+//@before vm.arch.sp = :: proof { lemma_sp_casts(old(vm).arch.sp, old(vm).arch.cs); }
+//@end
+//@action src/lib/interpreter/interpreter.rs pop = "pop", "word", memory_addr as bridge_pop_mem
+//@contract
+//@dropunused
+    requires <usize as IntoSpec<usize>>::obeys_into_spec(), m < 0x100000,
+    ensures
+        // the word the lemma's pop step yields is what arrives at the destination (low byte first), SP as in the lemma
+        final(vm).arch.sp as int == pop(stk_view(old(vm))).0.sp, //# C05 bridge.pop_moves_sp_like_the_lemmas_pop_step
+        final(vm).mem[m as int] as int + 256 * (final(vm).mem[(m as int + 1) % 0x100000] as int) == pop(stk_view(old(vm))).1
+            || (m as int + 1) % 0x100000 == m as int, //# C05 bridge.pop_delivers_the_word_of_the_lemmas_pop_step
+        final(vm).arch == (i8086 { sp: final(vm).arch.sp, ..old(vm).arch }),
+//@before let ss = :: proof { lemma_sp_casts(old(vm).arch.sp, old(vm).arch.cs); }
+//@end
+
 // ================================================================================ C12: layout
 /// Loader contract (Verus unit `loader`): a definition of size n occupies counter .. counter+n and advances the
 /// counter by n.  Hence a sequence of definitions is laid out contiguously, in order, from the counter's start.
